@@ -31,7 +31,7 @@ META = {
             'in the model, secret values on the live pair). Trusted: Coq kernel + vm_compute, translator/units_c03.py, harness.',
     'technique': 'Rocq/Coq proof over hand model + regenerated tables; live-endpoint correspondence by vm_compute; direct property oracle',
 }
-IMPORTS = ['Gen.C03Tables', 'Model.C03_Negotiate']
+IMPORTS = ['Gen.C03Tables', 'Model.C03_Negotiate', 'Model.C03_Resume']
 
 
 def work(arg):
@@ -47,9 +47,10 @@ def work(arg):
         return {'case': case, 'harness_error': traceback.format_exc()[-800:]}
     if 'config_error' in obs:
         return {'case': case, 'invalid': obs['config_error']}
-    cl, sv = U.case_lits(case, cval, sval, obs.get('hello2_len', 0))
-    bad = U.property_oracle(case, obs, cval, sval)
-    return {'case': case, 'obs': obs, 'lit': '(%s, %s, %s)' % (cl, sv, U.obs_lit(obs)), 'bad': bad, 'seed': seed}
+    cl, sv = U.case_lits(case, cval, sval, obs.get('hello2_len', 0), obs.get('nst_len', 0))
+    bad = U.history_oracle(case, obs, cval, sval)
+    return {'case': case, 'obs': obs, 'lit': '(%s, %s, %s)' % (cl, sv, U.obs_lit(obs)), 'bad': bad, 'seed': seed,
+            'lit2': U.history_lit(case, obs, cval, sval)}
 
 
 # ---- function-level translation validation of the pure helpers -----------------------------------
@@ -110,7 +111,7 @@ def run(ctx):
         ctx.log('translator %s: %s' % (unit, msg))
         if not ok:
             tie_broken = msg
-    res = vlib.proof_stage(ctx, 'Props/C03.v', model_targets=['Gen/C03Tables.vo', 'Model/C03_Negotiate.vo'])
+    res = vlib.proof_stage(ctx, 'Props/C03.v', model_targets=['Gen/C03Tables.vo', 'Model/C03_Negotiate.vo', 'Model/C03_Resume.vo'])
     ctx.log('proof stage ok=%s failing=%s' % (res['ok'], res['failing']))
     ctx.cov['trusted_base'] = [
         'Coq 8.16.1 kernel + vm_compute',
@@ -149,6 +150,12 @@ def run(ctx):
                s.get('cert'), c.get('cert'), bool(s.get('req_cert')), c.get('alpn') is not None, s.get('alpn') is not None,
                bool(c['settings']['psks']))
         ctx.count('live-pair-vs-property', 1, [key], sample={'case': case, 'outcome': code} if len(live) % 60 == 1 else None)
+        o2 = obs.get('second')
+        if o2 and 'config_error' not in o2:
+            c2 = o2.get('client', {})
+            ctx.count('resumed-connection-vs-property', 1,
+                      [(case['resume']['kind'], U.outcome_code(o2), c2.get('version', [0, 0])[1], c2.get('resumed'),
+                        c2.get('send'), c2.get('recv'), c2.get('alpn') is not None)])
         for k, what in r['bad']:
             seen_keys[k] = seen_keys.get(k, 0) + 1
             if seen_keys[k] > 1:
@@ -175,6 +182,20 @@ def run(ctx):
                 tie_broken = 'model disagrees with implementation on case %s (impl %s)' % (
                     json.dumps(r['case']), U.obs_tuple(r['obs']))
                 ctx.cov.setdefault('disagreements', []).append({'case': r['case'], 'seed': r['seed'], 'impl': U.obs_tuple(r['obs'])})
+        # ---- second (resumed) connections of the histories
+        hist = [r for r in live if r.get('lit2')]
+        if hist:
+            bad2, errs = vlib.coq_bad_indices('C03r', IMPORTS, 'Case2T', 'chk_model2', [r['lit2'] for r in hist],
+                                              shard=max(4, (len(hist) + 15) // 16) if quick else 60, preamble=U.PREAMBLE)
+            ctx.count('resumed-model-vs-impl(vm_compute)', len(hist), [('agree', len(hist) - len(bad2))])
+            ctx.log('resumed connections, model vs implementation: %d histories, %d disagree' % (len(hist), len(bad2)))
+            for e in errs:
+                tie_broken = 'history evaluation failed: ' + e[-300:]
+            for i in bad2[:5]:
+                r = hist[i]
+                ctx.log('model/impl disagreement on the resumed connection: %s' % json.dumps(r['case'])[:300])
+                tie_broken = 'resumption model disagrees with implementation on history %s (second connection %s)' % (
+                    json.dumps(r['case']), U.obs2_lit(r['obs']['second']))
         hl, hm = helper_cases(ctx, 60 if quick else 600)
         badh, errs = vlib.coq_bad_indices('C03h', IMPORTS, 'bool', '(fun b : bool => b)', hl, shard=40)
         ctx.count('helpers-model-vs-impl', len(hl), [m[:2] for m in hm])
@@ -201,7 +222,7 @@ def replay(ctx, path):
     case = r['case']
     cval, sval = U.validate_pair(case)
     obs = U.run_live(case, seed=r.get('seed', 0))
-    bad = U.property_oracle(case, obs, cval, sval)
+    bad = U.history_oracle(case, obs, cval, sval)
     print('outcome:', obs['client_outcome'], obs['server_outcome'])
     for k, what in bad:
         print('property fails:', k, '-', what)
